@@ -83,3 +83,8 @@ func zzPortName(proto corev1.Protocol, name string) netv1.NetworkPolicyPort {
 	ip := intstr.FromString(name)
 	return netv1.NetworkPolicyPort{Protocol: zzProtoPtr(proto), Port: &ip}
 }
+
+func zzIntStrPtr(p int32) *intstr.IntOrString {
+	ip := intstr.FromInt32(p)
+	return &ip
+}
